@@ -71,6 +71,7 @@ def compare(case, impl, model, stats=None, proj=None):
     ir, mr = impl["res"], model["res"]
     if op == "rate":
         beta = case["st"]["beta"]
+        srel = _sigma_rel(case, mr)
         if [len(t) for t in ir] != [len(t) for t in mr]:
             out.append("shape: impl %s / model %s" % ([len(t) for t in ir], [len(t) for t in mr]))
             return out
@@ -79,9 +80,10 @@ def compare(case, impl, model, stats=None, proj=None):
                 if want("ids") and (pi[2] != pm[2] or _nm(pi[3]) != _nm(pm[3])):
                     out.append("id/name at [%d][%d]: impl %s / model %s" % (i, j, pi[2:], pm[2:]))
                 sc = max(abs(fh(pm[0])), abs(fh(pm[1])), abs(fh(pi[1])))
-                if want("mu") and not close(pi[0], pm[0], sc, stats):
+                if want("mu") and not close(pi[0], pm[0], sc, stats) and not (
+                        abs(fh(pi[0]) - fh(pm[0])) <= _tm_tie_mu_allow(case, i, j) + REL * max(sc, abs(fh(pi[0])))):
                     out.append("mu at [%d][%d]: impl %s / model %s" % (i, j, fh(pi[0]), fh(pm[0])))
-                if want("sigma") and not close(pi[1], pm[1], 0.0, stats):
+                if want("sigma") and not close(pi[1], pm[1], 0.0, stats, rel=srel):
                     out.append("sigma at [%d][%d]: impl %s / model %s" % (i, j, fh(pi[1]), fh(pm[1])))
         if want("objects"):
             # set of fields written per object, and final values of the passed objects
@@ -120,8 +122,16 @@ def compare(case, impl, model, stats=None, proj=None):
             for i, (a, b) in enumerate(zip(ir, mr)):
                 if want("value") and not close(a[1], b[1], 1.0, stats):
                     out.append("predict_rank prob[%d]: impl %s / model %s" % (i, fh(a[1]), fh(b[1])))
-            if want("value") and [a[0] for a in ir] != [b[0] for b in mr]:
-                out.append("predict_rank ranks: impl %s / model %s" % ([a[0] for a in ir], [b[0] for b in mr]))
+            # the integer ranks are a function of the probabilities (competition ranking, best = 1): the
+            # implementation's ranks are compared with that function applied to ITS OWN probabilities, so that
+            # probabilities differing from the model's in the last bits (a tie made or broken) do not count
+            if want("value"):
+                pr = [fh(a[1]) for a in ir]
+                asc = [1 + sum(1 for y in pr if y < x) for x in pr]
+                expect = [max(asc) - r + 1 for r in asc] if asc else []
+                if [a[0] for a in ir] != expect:
+                    out.append("predict_rank ranks: impl %s, but the ranking of its own probabilities %s is %s (model %s)" % (
+                        [a[0] for a in ir], pr, expect, [b[0] for b in mr]))
     elif op in ("gauss", "ordinal") or (op == "order" and case["fn"] == "pysum"):
         sc = 0.0
         if not close(ir, mr, sc, stats):
@@ -161,3 +171,60 @@ def _nm(n):
 def _canon_state(st):
     from .impl import hx
     return [hx(fh(x)) if isinstance(x, str) else x for x in st]
+
+
+def _sigma_rel(case, model_res):
+    """relative tolerance on a posterior sigma: 1e-9 (C01's own), widened for Thurstone-Mosteller games WITH TIES, where
+    W~ is evaluated with a cancellation error of order 1e-13/t that the properties explicitly allow (C01 "within that
+    form's stated error", C17 "wt within 20t + 1e-13/t"), t = kappa / c_iq.  Same rule as the monitors use."""
+    kind = case.get("kind")
+    if kind not in ("TMF", "TMP"):
+        return REL
+    args = case["args"]
+    vals = None
+    for a in (args[1], args[2]):
+        if a[0] == "L" and a[1] and all(v[0] in ("I", "F", "B") for v in a[1]):
+            vals = [float(v[1]) for v in a[1]]
+            break
+    if vals is None or len(set(vals)) == len(vals):
+        return REL
+    try:
+        ss = [sum(fh(p[1]) ** 2 for p in t) for t in model_res]    # posterior variances bound the scale from below; use priors:
+        prior = [[p for p in t[1]] for t in args[0][1]]
+        tau = case["st"]["tau"] if args[3][0] == "N" else float(args[3][1])
+        ss = [sum(float(p[3]) ** 2 + tau * tau for p in t) for t in prior]
+        cmax = (2.0 if kind == "TMP" else 1.0) * math.sqrt(2 * max(ss) + 2 * case["st"]["beta"] ** 2)
+        t_min = case["st"]["kappa"] / cmax
+        return max(REL, 1e-12 / t_min)
+    except Exception:  # noqa: BLE001
+        return REL
+
+
+def _tm_tie_mu_allow(case, t, j):
+    """absolute allowance on a posterior mu in Thurstone-Mosteller games with ties: on the branch the code takes for small
+    draw margins V~ is -x -/+ t, which jumps by 2t at x = 0 (within the 2t error C17 states for vt); two evaluations
+    whose team totals differ in the last bit (another summation order) may land on either side.  The jump moves player
+    (t, j) by sigma_tj^2 * 2 kappa / c_tq^2 per tied opponent q - the draw-margin term C05/C07 allow."""
+    kind = case.get("kind")
+    if kind not in ("TMF", "TMP"):
+        return 0.0
+    try:
+        args = case["args"]
+        vals = None
+        for a, sgn in ((args[1], 1.0), (args[2], -1.0)):
+            if a[0] == "L" and a[1] and all(v[0] in ("I", "F", "B") for v in a[1]):
+                vals = [sgn * float(v[1]) for v in a[1]]
+                break
+        if vals is None:
+            return 0.0
+        tau = case["st"]["tau"] if args[3][0] == "N" else float(args[3][1])
+        prior = [t_[1] for t_ in args[0][1]]
+        ss = [sum(float(p[3]) ** 2 + tau * tau for p in tm) for tm in prior]
+        cm = 4.0 if kind == "TMP" else 1.0
+        tot = 0.0
+        for q in range(len(vals)):
+            if q != t and vals[q] == vals[t]:
+                tot += 2 * case["st"]["kappa"] / (cm * (ss[t] + ss[q] + 2 * case["st"]["beta"] ** 2))
+        return (float(prior[t][j][3]) ** 2 + tau * tau) * tot * (1 + 1e-9)
+    except Exception:  # noqa: BLE001
+        return 0.0
